@@ -1243,6 +1243,7 @@ class NodeLambda:
     def evaluate(self, environment):
         import ckl.functions
         result = ckl.functions.FuncLambda(environment)
+        result.pos = self.pos
         for i in range(len(self.args)):
             result.addArg(self.args[i], self.defs[i])
         result.setBody(self.body)
